@@ -7,10 +7,13 @@ Inductive case :=
 (* cnf(c): recorded iteration orders of c.fanin(n), and the clause list named through the IDPool *)
 | CCnf (C : Circuit) (ords : list (string * list string)) (obs : res (list clause))
 (* solve(c, A): None = False *)
-| CSolve (C : Circuit) (ords : list (string * list string)) (A : list (string * bool)) (obs : res (option (list (string * bool)))).
+| CSolve (C : Circuit) (ords : list (string * list string)) (A : list (string * bool)) (obs : res (option (list (string * bool))))
+(* a case together with the follow-up cases derived from its observation (adaptive alias probing): all must pass *)
+| CMany (l : list case).
 
-Definition agree (k : case) : bool :=
+Fixpoint agree (k : case) : bool :=
   match k with
+  | CMany l => forallb agree l
   | CCnf C ords obs =>
       match cnf C (mk_ord (c_g C) ords), obs with
       | Ok Fm, Ok G => cnf_eq Fm G
@@ -34,8 +37,9 @@ Definition agree (k : case) : bool :=
   end.
 
 (* the property, judged on what the implementation returned; it speaks about lint-clean closed circuits without x *)
-Definition holds (k : case) : bool :=
+Fixpoint holds (k : case) : bool :=
   match k with
+  | CMany l => forallb holds l
   | CCnf C _ obs =>
       if in_domain C then match obs with Ok G => cnf_exact (c_g C) G | _ => false end else true
   | CSolve C _ A obs =>
